@@ -14,7 +14,9 @@ def drive (body impl : String) : Verdict :=
   let bad : List String :=
     if abn then [s!"[hang-or-abort] {impl}"] else
     (if get "foreign" != "0" then [s!"[foreign-task-cancelled] task {w.getD 3 "?"} of {n} ({w.getD 2 "?"} work, {w.getD 0 "?"} loop(s)) was cancelled while in progress and {get "foreign"} *other* task(s) never finished (the cancelled task itself: {victim}): the cancel signal reached the thread while another coroutine was running on it"] else []) ++
-    (if get "foreign" == "0" ∧ get "others" != s!"{n - 1}/{n - 1}" then [s!"[wrong-or-missing-result] the other tasks finished but {get "others"} returned their own value"] else [])
-  { modelOut := s!"others={n - 1}/{n - 1} victim={victim} foreign=0", spec := [("C13", bad.isEmpty, joinWith " ; " bad)], blame := some ["C13"],
-    labels := [s!"work-{w.getD 2 ""}", if w.getD 0 "1" == "1" then "one-loop" else "several-loops", s!"victim-{victim}"] }
+    (if get "foreign" == "0" ∧ get "others" != s!"{n - 1}/{n - 1}" then [s!"[wrong-or-missing-result] the other tasks finished but {get "others"} returned their own value"] else []) ++
+    -- the cancelled task itself: it either finished before the cancel took effect, or it never publishes a value
+    (if victim == "cancelled" ∧ get "vjoin" == "value" then [s!"[cancelled-task-returned-value] the cancelled task never reached its end, yet its join returned a value"] else [])
+  { modelOut := s!"others={n - 1}/{n - 1} victim={victim} foreign=0 vjoin={get "vjoin"}", spec := [("C13", bad.isEmpty, joinWith " ; " bad)], blame := some ["C13"],
+    labels := [s!"work-{w.getD 2 ""}", if w.getD 0 "1" == "1" then "one-loop" else "several-loops", s!"victim-{victim}", s!"join-of-victim-{get "vjoin"}"] }
 end Oc.Driver.RtCancel
